@@ -21,6 +21,8 @@ for log in sorted(glob.glob(os.path.join(out, 'C??-*.log'))):
     caught = any('VIOLATION' in l for l in lines)
     concrete = any('VIOLATION' in l and 'no-failing-input-found' not in l for l in lines)
     m = json.load(open(p))
+    if isinstance(m.get('history'), str):
+        m['history'] = [m['history']]
     if not m.get('caught') and caught:
         m.setdefault('history', []).append('initially MISSED (%s); caught after the check was strengthened'
                                            % (m.get('check_verdicts', '')[:120]))
